@@ -221,32 +221,28 @@ func (s *sut) registered(version string) int {
 
 var errConnClosed = errors.New("harness: connection closed")
 
+// wframe is one Write in progress: the writer stays blocked until the harness takes the frame
+// (release) or the connection closes.
+type wframe struct {
+	raw     []byte
+	release chan struct{}
+}
+
 type conn struct {
 	s      *sut
 	id     int
 	ctx    context.Context
 	cancel context.CancelFunc
 	mu     stdsync.Mutex
-	gates  map[string]chan []byte // subscription id -> rendezvous with its blocked writer
-	resp   chan []byte            // responses of requests
-	r      io.Reader              // the message being handled
+	pend   map[string][]*wframe // subscription id -> blocked notification writes (at most one per goroutine)
+	resp   []*wframe            // blocked response writes
+	r      io.Reader            // the message being handled
 }
 
 func (s *sut) newConn() *conn {
 	s.nconn++
 	ctx, cancel := context.WithCancel(context.Background())
-	return &conn{s: s, id: s.nconn, ctx: ctx, cancel: cancel, gates: map[string]chan []byte{}, resp: make(chan []byte)}
-}
-
-func (c *conn) gate(id string) chan []byte {
-	c.mu.Lock()
-	defer c.mu.Unlock()
-	g, ok := c.gates[id]
-	if !ok {
-		g = make(chan []byte)
-		c.gates[id] = g
-	}
-	return g
+	return &conn{s: s, id: s.nconn, ctx: ctx, cancel: cancel, pend: map[string][]*wframe{}}
 }
 
 func (c *conn) Read(p []byte) (int, error) { return c.r.Read(p) }
@@ -261,22 +257,41 @@ func (c *conn) Write(p []byte) (int, error) {
 			ID string `json:"subscription_id"`
 		} `json:"params"`
 	}
-	ch := c.resp
-	if json.Unmarshal(p, &probe) == nil && probe.Method != "" {
-		ch = c.gate(probe.Params.ID)
-	}
-	buf := append([]byte{}, p...)
-	select {
-	case <-c.ctx.Done():
+	if c.ctx.Err() != nil {
 		return 0, errConnClosed
-	default:
 	}
+	f := &wframe{raw: append([]byte{}, p...), release: make(chan struct{})}
+	isNote := json.Unmarshal(p, &probe) == nil && probe.Method != ""
+	c.mu.Lock()
+	if isNote {
+		c.pend[probe.Params.ID] = append(c.pend[probe.Params.ID], f)
+	} else {
+		c.resp = append(c.resp, f)
+	}
+	c.mu.Unlock()
 	select {
-	case ch <- buf:
+	case <-f.release:
 		return len(p), nil
 	case <-c.ctx.Done():
+		c.mu.Lock()
+		if isNote {
+			c.pend[probe.Params.ID] = dropFrame(c.pend[probe.Params.ID], f)
+		} else {
+			c.resp = dropFrame(c.resp, f)
+		}
+		c.mu.Unlock()
 		return 0, errConnClosed
 	}
+}
+
+func dropFrame(q []*wframe, f *wframe) []*wframe {
+	out := q[:0:0]
+	for _, x := range q {
+		if x != f {
+			out = append(out, x)
+		}
+	}
+	return out
 }
 
 func decode(raw []byte) (map[string]any, error) {
@@ -310,54 +325,78 @@ func (c *conn) start(version, method string, params any) *pendingCall {
 	return pc
 }
 
-// poll returns the response if the handler has produced it (the frame is taken, then the
-// handler's return is awaited: it only has to come back from the write).
+// answered reports (without taking it) whether the response is waiting to be written.
+func (pc *pendingCall) answered() bool {
+	pc.c.mu.Lock()
+	defer pc.c.mu.Unlock()
+	return len(pc.c.resp) > 0
+}
+
+// poll takes the response if the handler has produced it (call after synctest.Wait()).
 func (pc *pendingCall) poll() (map[string]any, bool, error) {
-	select {
-	case raw := <-pc.c.resp:
-		if err := <-pc.done; err != nil {
+	pc.c.mu.Lock()
+	if len(pc.c.resp) == 0 {
+		pc.c.mu.Unlock()
+		select {
+		case err := <-pc.done:
+			if err == nil {
+				err = errors.New("handler returned without a response")
+			}
 			return nil, true, err
+		default:
+			return nil, false, nil
 		}
-		m, err := decode(raw)
-		return m, true, err
-	default:
-		return nil, false, nil
 	}
-}
-
-// wait blocks for the response (only for requests that cannot depend on a frame being taken).
-func (pc *pendingCall) wait() (map[string]any, error) {
-	select {
-	case raw := <-pc.c.resp:
-		if err := <-pc.done; err != nil {
-			return nil, err
-		}
-		return decode(raw)
-	case err := <-pc.done:
-		if err == nil {
-			err = errors.New("handler returned without a response")
-		}
-		return nil, err
+	f := pc.c.resp[0]
+	pc.c.resp = pc.c.resp[1:]
+	pc.c.mu.Unlock()
+	close(f.release)
+	if err := <-pc.done; err != nil {
+		return nil, true, err
 	}
+	m, err := decode(f.raw)
+	return m, true, err
 }
 
-func (c *conn) call(version, method string, params any) (map[string]any, error) {
-	return c.start(version, method, params).wait()
-}
-
-// take accepts the frame subscription `id` is blocked on, if it is blocked in a write right now
-// (call after synctest.Wait()).
-func (c *conn) take(id string) (map[string]any, bool) {
-	select {
-	case raw := <-c.gate(id):
-		m, err := decode(raw)
+// peek returns the frame subscription `id` is blocked on, if it is blocked in a write right now
+// (call after synctest.Wait()); take also lets the write return.
+func (c *conn) peek(id string) (map[string]any, bool) {
+	c.mu.Lock()
+	defer c.mu.Unlock()
+	if q := c.pend[id]; len(q) > 0 {
+		m, err := decode(q[0].raw)
 		if err != nil {
 			return map[string]any{"unparsable": err.Error()}, true
 		}
 		return m, true
-	default:
+	}
+	return nil, false
+}
+
+func (c *conn) take(id string) (map[string]any, bool) {
+	m, ok := c.peek(id)
+	if !ok {
 		return nil, false
 	}
+	c.mu.Lock()
+	f := c.pend[id][0]
+	c.pend[id] = c.pend[id][1:]
+	c.mu.Unlock()
+	close(f.release)
+	return m, true
+}
+
+// strays: notification frames for subscription ids the harness does not know on this connection.
+func (c *conn) ids() []string {
+	c.mu.Lock()
+	defer c.mu.Unlock()
+	var out []string
+	for id, q := range c.pend {
+		if len(q) > 0 {
+			out = append(out, id)
+		}
+	}
+	return out
 }
 
 func (c *conn) close() { c.cancel() }
